@@ -8,6 +8,8 @@ import (
 	"go/constant"
 	"go/token"
 	"go/types"
+	"os"
+	"runtime/debug"
 	"strings"
 
 	"golang.org/x/tools/go/ssa"
@@ -305,6 +307,9 @@ func (st *State) runFrame(fr *frame) {
 					panic(r)
 				}
 				// host-level bug inside the engine: annotate
+				if os.Getenv("VERIF_DEBUG") != "" {
+					fmt.Fprintf(os.Stderr, "ENGINE BUG %v at %s\n%s\n", r, fr.where(), debug.Stack())
+				}
 				panic(engineBug{r, fr.where()})
 			}
 			panic("runFrame: block != nil without panic")
